@@ -2,3 +2,4 @@ import XV.Model.Safety
 import XV.Props.C14
 import XV.Model.Chain
 import XV.Model.Ledger
+import XV.Props.C20
